@@ -173,9 +173,35 @@ func c11Judge(pc *parserCase, verbose bool) ([]string, map[string]bool) {
 		if level != nil && !level.NoFn && len(o.Calls) != 1 {
 			out = append(out, fmt.Sprintf("required: every required option was supplied but %d command functions ran", len(o.Calls)))
 		}
+		// start from non-initial states too: a program object that already served an earlier successful round must
+		// not report a required option as missing that this command line (or the environment) supplies
+		if len(out) == 0 && level != nil && !level.NoFn && !o.DHasErr && len(pc.Argv) <= 3 {
+			for _, pre := range c11Pres {
+				p2 := ph.Build(pc.Def, pc.Env)
+				o1 := p2.Run(pre, true)
+				if o1.Panic != "" || o1.Hang || o1.HasErr || o1.DHasErr || len(o1.Calls) != 1 {
+					p2.Close()
+					continue
+				}
+				p2.Reset()
+				o2 := p2.Run(pc.Argv, true)
+				p2.Close()
+				flags["second_round"] = true
+				if o2.Panic != "" || o2.Hang {
+					continue
+				}
+				if o2.HasErr || o2.DHasErr || len(o2.Calls) != 1 {
+					out = append(out, fmt.Sprintf("required (second round on the same program object, after %q): every required option is supplied but Parse returned %q, Dispatch returned %q and %d command functions ran", pre, o2.ParseErr, o2.DErr, len(o2.Calls)))
+					break
+				}
+			}
+		}
 	}
 	return out, flags
 }
+
+// earlier rounds used by the second-round oracle (those that do not succeed on a definition or environment are skipped)
+var c11Pres = [][]string{{}, {"--v"}, {"--rreq=1"}, {"--rreq=1", "--v", "zzz"}, {"c", "--cq2", "--copt=1"}, {"--rreq=1", "c"}}
 
 func init() {
 	parserJudges["C11"] = func(pc *parserCase, verbose bool) []string { m, _ := c11Judge(pc, verbose); return m }
@@ -183,7 +209,7 @@ func init() {
 		ID:        "C11",
 		QuickSecs: 120, ThoroSecs: 1500,
 		Rule: "input-space exploration: two trees with required options at the root, on a command and two levels down (inherited), with and without custom message, one bound to an environment variable; every argv of length <= L over 19 tokens (each required option by name, alias, abbreviation; command names; help option, its abbreviation and alias; help command; topics; positional) x 3 modes x environment {unset, set}; " +
-			"Parse / Dispatch errors (errors.Is ErrorParsing, custom text), Writer contents (help text of the right level) and instrumented CommandFns compared with the reference model; distinct_nontrivial = distinct in-domain cases",
+			"Parse / Dispatch errors (errors.Is ErrorParsing, custom text), Writer contents (help text of the right level) and instrumented CommandFns compared with the reference model; every argv of length <= 3 that supplies all required options is also given to a program object that already served one of 6 earlier rounds and must again run its function without a required-option error; distinct_nontrivial = distinct in-domain cases",
 		Assume: []string{"other trees and argv longer than L are not covered"},
 		Run: func(c *RunCtx) {
 			depth := 4
@@ -231,6 +257,6 @@ func init() {
 		},
 		Replay: replayParser,
 		GateCounts: []string{"in_domain_cases", "in_domain_root_required_missing", "in_domain_command_required_missing", "in_domain_help_option", "in_domain_help_with_missing_required",
-			"in_domain_help_command", "in_domain_help_topic", "in_domain_help_unknown_topic", "in_domain_all_supplied"},
+			"in_domain_help_command", "in_domain_help_topic", "in_domain_help_unknown_topic", "in_domain_all_supplied", "in_domain_second_round"},
 	})
 }
